@@ -14,20 +14,14 @@ def contAt (str : Bytes) (j : Nat) : Prop := ∃ b, str[j]? = some b ∧ runeSta
 def startAt (str : Bytes) (j : Nat) : Prop := ∃ b, str[j]? = some b ∧ runeStart b = true
 
 theorem scanBack_some (str : Bytes) : ∀ n k, scanBack str n = some k →
-    k ≤ n ∧ startAt str k ∧ ∀ j, k < j → j ≤ n → contAt str j := by
+    k ≤ n ∧ (k = 0 ∨ startAt str k) ∧ ∀ j, k < j → j ≤ n → contAt str j := by
   intro n
   induction n with
   | zero =>
     intro k h
-    unfold scanBack at h
-    cases h0 : str[0]? with
-    | none => simp [h0] at h
-    | some b =>
-      simp only [h0] at h
-      by_cases hs : runeStart b = true
-      · simp [hs] at h; subst h
-        exact ⟨Nat.le_refl _, ⟨b, h0, hs⟩, fun j h1 h2 => by omega⟩
-      · simp [hs] at h
+    simp only [scanBack, Option.some.injEq] at h
+    subst h
+    exact ⟨Nat.le_refl _, Or.inl rfl, fun j h1 h2 => by omega⟩
   | succ n ih =>
     intro k h
     unfold scanBack at h
@@ -37,7 +31,7 @@ theorem scanBack_some (str : Bytes) : ∀ n k, scanBack str n = some k →
       simp only [h0] at h
       by_cases hs : runeStart b = true
       · simp [hs] at h; subst h
-        exact ⟨Nat.le_refl _, ⟨b, h0, hs⟩, fun j h1 h2 => by omega⟩
+        exact ⟨Nat.le_refl _, Or.inr ⟨b, h0, hs⟩, fun j h1 h2 => by omega⟩
       · simp only [hs] at h
         obtain ⟨h1, h2, h3⟩ := ih k (by simpa using h)
         refine ⟨by omega, h2, fun j hj1 hj2 => ?_⟩
@@ -45,31 +39,20 @@ theorem scanBack_some (str : Bytes) : ∀ n k, scanBack str n = some k →
         · subst hj; exact ⟨b, h0, by simpa using hs⟩
         · exact h3 j hj1 (by omega)
 
-theorem scanBack_none (str : Bytes) : ∀ n, n < str.length → scanBack str n = none →
-    ∀ j, j ≤ n → contAt str j := by
+/-- the scan never indexes out of range when it starts inside the string -/
+theorem scanBack_isSome (str : Bytes) : ∀ n, n < str.length → ∃ k, scanBack str n = some k := by
   intro n
   induction n with
-  | zero =>
-    intro hl h j hj
-    have : j = 0 := by omega
-    subst this
-    unfold scanBack at h
-    have h0 : str[0]? = some str[0] := by simp [hl]
-    simp only [h0] at h
-    by_cases hs : runeStart str[0] = true
-    · simp [hs] at h
-    · exact ⟨_, h0, by simpa using hs⟩
+  | zero => intro _; exact ⟨0, rfl⟩
   | succ n ih =>
-    intro hl h j hj
-    unfold scanBack at h
+    intro hl
+    unfold scanBack
     have h0 : str[n + 1]? = some str[n + 1] := by simp [hl]
-    simp only [h0] at h
+    simp only [h0]
     by_cases hs : runeStart str[n + 1] = true
-    · simp [hs] at h
-    · simp only [hs] at h
-      by_cases hjn : j = n + 1
-      · subst hjn; exact ⟨_, h0, by simpa using hs⟩
-      · exact ih (by omega) (by simpa using h) j (by omega)
+    · exact ⟨n + 1, by simp [hs]⟩
+    · obtain ⟨k, hk⟩ := ih (by omega)
+      exact ⟨k, by simp [hs, hk]⟩
 
 /-- the cut position and whether the ellipsis is appended -/
 def truncCut (n : Nat) (e : Bool) : Nat := if e && n > 3 then n - 3 else n
